@@ -1,0 +1,19 @@
+//go:build verif
+
+package av1
+
+// Property C02 support (agent c02d): byte count of the AV1CodecConfigurationRecord encoder equals its Size().
+
+// adv(sw, d): if the writer has no accumulated error now, it had none at entry and has advanced by exactly d bytes since entry.
+//@ pred adv(sw bits.SliceWriter, d int) = sw.(*bits.FixedSliceWriter).accError == nil ==> old(sw.(*bits.FixedSliceWriter).accError) == nil && sw.(*bits.FixedSliceWriter).off == old(sw.(*bits.FixedSliceWriter).off) + d
+
+// 32 bits are written with WriteBits: whatever the number of pending bits (0..7) at entry, the offset advances by 4 bytes.
+//@ func (*CodecConfRec).EncodeSW
+//@   requires a != nil
+//@   ensures swOKi(sw)
+//@   ensures[C02] result == nil ==> adv(sw, int(a.Size()))
+//@   assigns sw.(*bits.FixedSliceWriter).off, sw.(*bits.FixedSliceWriter).accError, sw.(*bits.FixedSliceWriter).n, sw.(*bits.FixedSliceWriter).v, sw.(*bits.FixedSliceWriter).buf[:]
+
+// Size() is loop-free: inlined wherever it is called (also inside mp4.(*Av1CBox).Size()).
+//@ func (*CodecConfRec).Size
+//@   inline
